@@ -48,6 +48,9 @@ ThAllowed(st, ev) ==
 ProbeAllowed(ev) ==
   CASE ev.e = "lockprobe" -> ev.held
     [] ev.e = "lockfree" -> ev.free
+    \* a sandbox created by one thread and then used and destroyed by another thread (each sandbox
+    \* by one thread at a time): the results are those of a thread running alone
+    [] ev.e = "handoff" -> ev.use = "ok" /\ ev.destroy = "ok"
     [] OTHER -> FALSE
 
 ThApply(st, ev) ==
